@@ -91,6 +91,39 @@ impl Audio {
         self.bursts.push((start, self.samples.len()));
     }
 
+    /// raw bits at the line's baud rate, continuing the symbol clock and the carrier phase (no burst span recorded)
+    pub fn bits(&mut self, bits: &[bool], rng: &mut Rng) {
+        let sps = self.line.rate as f64 / (BAUD * (1.0 + self.line.baud_err));
+        for &one in bits {
+            let f = if one { MARK_HZ } else { SPACE_HZ };
+            let dphi = 2.0 * std::f64::consts::PI * f / self.line.rate as f64;
+            let end = self.pos + sps;
+            while (self.samples.len() as f64) < end {
+                self.phase += dphi;
+                if self.phase > std::f64::consts::PI * 2.0 {
+                    self.phase -= std::f64::consts::PI * 2.0;
+                }
+                let v = self.phase.sin();
+                self.push_sample(v, rng);
+            }
+            self.pos = end;
+        }
+    }
+
+    /// a burst that continues the running symbol clock (no re-alignment of `pos`): used right after `bits`
+    pub fn burst_continuing(&mut self, preamble: usize, payload: &[u8], rng: &mut Rng) {
+        let start = self.samples.len();
+        let bytes: Vec<u8> = std::iter::repeat(0xABu8).take(preamble).chain(payload.iter().copied()).collect();
+        let mut bits = vec![];
+        for byte in bytes {
+            for bit in 0..8 {
+                bits.push((byte >> bit) & 1 == 1);
+            }
+        }
+        self.bits(&bits, rng);
+        self.bursts.push((start, self.samples.len()));
+    }
+
     /// arbitrary samples (already scaled)
     pub fn raw(&mut self, xs: &[f32]) {
         self.samples.extend_from_slice(xs);
